@@ -62,6 +62,10 @@ def shards(tier, prop):
             out.append(G('two', [(0, 2), (1, 2), (1, 2), (0, 2), (0, 2), (1, 2), (2, 2), (6, 7)], props, alg=alg, machines=[10, 20]))
             out.append(G('delay', [(0, 2), (1, 2), (1, 2), (0, 2), (0, 2), (0, 2), (0, 2), (0, 1)], props, alg=alg, vol=10))
         out.append(G('three', R_THREE, props, alg='queue', shape='join'))
+        if prop == 'C15':
+            # the second observation starts after the first (delayed) workflow is over: the report must persist
+            for alg in ('queue', 'batch1'):
+                out.append(G('delay', [(0, 2), (1, 2), (1, 2), (0, 2), (0, 2), (0, 2), (0, 2), (0, 1)], props, alg=alg, vol=10, s2_offset=8))
     elif prop == 'C17':
         RS = [(0, 2), (1, 2), (0, 1), (0, 2), (0, 2), (0, 2), (0, 2), (0, 2)]
         out.append(G('static', RS, props, T=400, alg='dynamic'))
